@@ -4849,6 +4849,7 @@ let hardcoded_ds =
 type enc =
 | U8
 | U16
+| U32
 
 (** val len_utf8 : n -> nat **)
 
@@ -4877,6 +4878,7 @@ let char_len e c =
   match e with
   | U8 -> len_utf8 c
   | U16 -> len_utf16 c
+  | U32 -> S O
 
 (** val rEPLACEMENT : n **)
 
@@ -5138,7 +5140,7 @@ let rec take_units8 t n0 = match n0 with
 let t_len e t =
   match e with
   | U8 -> len8 t
-  | U16 -> length t
+  | _ -> length t
 
 (** val t_char_at : enc -> n list -> nat -> (n * nat) option **)
 
@@ -5146,6 +5148,9 @@ let t_char_at e t i =
   match e with
   | U8 -> char_at8 t i
   | U16 -> char_at16 t i
+  | U32 -> (match nth_error t i with
+            | Some c -> Some (c, (S O))
+            | None -> None)
 
 (** val t_subrange : nat -> enc -> n list -> nat -> nat -> n list res **)
 
@@ -5160,7 +5165,7 @@ let t_subrange site e t a b =
              | None -> Panic site)
           | None -> Panic site)
     else Panic site
-  | U16 -> slice site t a b
+  | _ -> slice site t a b
 
 (** val t_char_indices : enc -> n list -> (nat * n) list **)
 
@@ -5168,6 +5173,7 @@ let t_char_indices e t =
   match e with
   | U8 -> char_indices8 t
   | U16 -> char_indices16 t
+  | U32 -> combine (seq O (length t)) t
 
 (** val t_indices_lengths : enc -> n list -> (nat * nat) list **)
 
@@ -5175,20 +5181,21 @@ let t_indices_lengths e t =
   match e with
   | U8 -> map (fun x -> ((fst x), (len_utf8 (snd x)))) (char_indices8 t)
   | U16 -> indices_lengths16 t
+  | U32 -> map (fun i -> (i, (S O))) (seq O (length t))
 
 (** val t_chars : enc -> n list -> n list **)
 
 let t_chars e t =
   match e with
-  | U8 -> t
   | U16 -> chars16 t
+  | _ -> t
 
 (** val t_chars_rev : enc -> n list -> n list res **)
 
 let t_chars_rev e t =
   match e with
-  | U8 -> Ok (rev t)
   | U16 -> chars16_rev t
+  | _ -> Ok (rev t)
 
 (** val removed_by_x9 : bclass -> bool **)
 
@@ -9169,6 +9176,12 @@ let bidi_info_new_gen e ds legacy text default_level =
       (fun levels -> Ok { bi_classes = ii.in_classes; bi_levels = levels;
       bi_paras = ii.in_paras }))
 
+(** val bidi_info_new :
+    enc -> datasource -> n list -> nat option -> bidi_info res **)
+
+let bidi_info_new e ds =
+  bidi_info_new_gen e ds false
+
 type para_bidi_info = { pb_classes : bclass list; pb_levels : nat list;
                         pb_level : nat; pb_pure : bool }
 
@@ -9182,6 +9195,12 @@ let para_bidi_info_new_gen e ds legacy text default_level =
         ii.in_iso text ii.in_classes) (fun levels -> Ok { pb_classes =
       ii.in_classes; pb_levels = levels; pb_level = ii.in_level; pb_pure =
       ii.in_pure }))
+
+(** val para_bidi_info_new :
+    enc -> datasource -> n list -> nat option -> para_bidi_info res **)
+
+let para_bidi_info_new e ds =
+  para_bidi_info_new_gen e ds false
 
 type l1_state = { l1_from : nat option; l1_prev : nat; l1_levels : nat list }
 
@@ -11732,15 +11751,15 @@ let rec emit_runs e legacy text levels = function
         (if is_rtl l
          then bind (t_chars_rev e sub0) (fun cs -> Ok
                 (match e with
-                 | U8 -> cs
-                 | U16 -> flat_map encode_utf16 cs))
+                 | U16 -> flat_map encode_utf16 cs
+                 | _ -> cs))
          else Ok
                 (match e with
-                 | U8 -> sub0
                  | U16 ->
                    if legacy
                    then sub0
-                   else flat_map encode_utf16 (t_chars e sub0))) (fun out ->
+                   else flat_map encode_utf16 (t_chars e sub0)
+                 | _ -> sub0)) (fun out ->
         bind (emit_runs e legacy text levels rest) (fun rest' -> Ok
           (app out rest')))))
 
@@ -13169,6 +13188,12 @@ let n_list_eqb =
 let run_eqb a b =
   (&&) (Nat.eqb (fst a) (fst b)) (Nat.eqb (snd a) (snd b))
 
+(** val para_eqb : para_info -> para_info -> bool **)
+
+let para_eqb a b =
+  (&&) ((&&) (Nat.eqb a.p_start b.p_start) (Nat.eqb a.p_end b.p_end))
+    (Nat.eqb a.p_level b.p_level)
+
 (** val dir_eqb : direction -> direction -> bool **)
 
 let dir_eqb a b =
@@ -13196,6 +13221,7 @@ let case_chars c =
   match c.tc_enc with
   | U8 -> map (fun cp -> (cp, (len_utf8 cp))) c.tc_text
   | U16 -> decode16 c.tc_text
+  | U32 -> map (fun cp -> (cp, (S O))) c.tc_text
 
 (** val expand : nat list -> 'a1 list -> 'a1 list **)
 
@@ -13501,8 +13527,8 @@ let c05_judge _ o =
 
 let encode_chars e chs =
   match e with
-  | U8 -> chs
   | U16 -> flat_map encode_utf16 chs
+  | _ -> chs
 
 (** val reorder_expected :
     tcase -> nat list -> nat -> (nat * nat) -> n list option **)
@@ -13529,12 +13555,12 @@ let reorder_expected c stored pl = function
 
 let unpaired_free c =
   match c.tc_enc with
-  | U8 -> true
   | U16 ->
     (||) (forallb (fun u -> negb ((||) (is_hi u) (is_lo u))) c.tc_text)
       (n_list_eqb
         (flat_map (fun ch -> encode_utf16 (fst ch)) (decode16 c.tc_text))
         c.tc_text)
+  | _ -> true
 
 (** val line_reorder_ok : tcase -> nat list -> nat -> line_obs -> bool **)
 
@@ -13812,10 +13838,10 @@ let c16_judge c o =
 
 let line_text c line =
   match c.tc_enc with
-  | U8 ->
-    option_map (map fst) (chars_in O (fst line) (snd line) (case_chars c))
   | U16 ->
     Some (firstn (sub (snd line) (fst line)) (skipn (fst line) c.tc_text))
+  | _ ->
+    option_map (map fst) (chars_in O (fst line) (snd line) (case_chars c))
 
 (** val all_even : nat list -> bool **)
 
@@ -14086,3 +14112,41 @@ let iter16_program legacy t ops =
 let c18_iter_judge t ops out =
   okb out (fun got ->
     list_eqb (opt_eqb N.eqb) got (deque_run (map fst (decode16 t)) ops))
+
+(** val lI_check : tcase -> bool **)
+
+let lI_check c =
+  let chars = case_chars c in
+  let lens = map snd chars in
+  let cps = map fst chars in
+  let us = fun i -> fold_left Nat.add (firstn i lens) O in
+  (&&)
+    (match bidi_info_new c.tc_enc c.tc_ds c.tc_text c.tc_dir with
+     | Ok b ->
+       (match bidi_info_new U32 c.tc_ds cps c.tc_dir with
+        | Ok b' ->
+          (&&)
+            ((&&) (cls_list_eqb b.bi_classes (expand lens b'.bi_classes))
+              (nat_list_eqb b.bi_levels (expand lens b'.bi_levels)))
+            (list_eqb para_eqb b.bi_paras
+              (map (fun p -> { p_start = (us p.p_start); p_end =
+                (us p.p_end); p_level = p.p_level }) b'.bi_paras))
+        | Panic _ -> false)
+     | Panic _ ->
+       (match bidi_info_new U32 c.tc_ds cps c.tc_dir with
+        | Ok _ -> false
+        | Panic _ -> true))
+    (match para_bidi_info_new c.tc_enc c.tc_ds c.tc_text c.tc_dir with
+     | Ok p ->
+       (match para_bidi_info_new U32 c.tc_ds cps c.tc_dir with
+        | Ok p' ->
+          (&&)
+            ((&&)
+              ((&&) (cls_list_eqb p.pb_classes (expand lens p'.pb_classes))
+                (nat_list_eqb p.pb_levels (expand lens p'.pb_levels)))
+              (Nat.eqb p.pb_level p'.pb_level)) (eqb p.pb_pure p'.pb_pure)
+        | Panic _ -> false)
+     | Panic _ ->
+       (match para_bidi_info_new U32 c.tc_ds cps c.tc_dir with
+        | Ok _ -> false
+        | Panic _ -> true))
